@@ -92,8 +92,9 @@ def occurrences(phase):
     N1 = [A[0]]
     N1B = [A[2]]
     N2 = [A[0], A[2]]
-    N2T = [(t + 2 * u, p + 1) for t, p in N2]
-    out = dict(A=A, T=T, SUB=SUB, D=D, PT=PT, N1=N1, N1B=N1B, N2=N2, N2T=N2T)
+    N2T = [(t + 2 * u, p + 1) for t, p in N2]          # a translate of N2
+    N2P = [N2[0], (N2[1][0], N2[1][1] + 1)]            # same onsets as N2, other interval: differs in pitch only
+    out = dict(A=A, T=T, SUB=SUB, D=D, PT=PT, N1=N1, N1B=N1B, N2=N2, N2T=N2T, N2P=N2P)
     return {k: _f(v) for k, v in out.items()}
 
 
@@ -130,7 +131,7 @@ def sides(tier, phase):
 def small_sides(phase):
     """1- and 2-note occurrences (len(P) == len(Q) == 1 clause; denominators 1, 2, 4)."""
     o = occurrences(phase)
-    pats = [(o["N1"],), (o["N1B"],), (o["N2"],), (o["N2T"],), (o["A"],), (o["N1"], o["N2"])]
+    pats = [(o["N1"],), (o["N1B"],), (o["N2"],), (o["N2T"],), (o["N2P"],), (o["A"],), (o["N1"], o["N2"])]
     return list(EMPTY) + lists_over(pats, 2)
 
 
